@@ -18,7 +18,8 @@ Definition generator_facts : Prop :=
   gen_continue_stop_then_cleanup_then_continue = true /\
   gen_break_cleanup_before_jump = true /\
   gen_defer_registers_on_current_scope = true /\
-  gen_defer_blocks_appended = true.
+  gen_defer_blocks_appended = true /\
+  gen_fallthrough_closes_scope = true.
 
 Lemma generator_facts_hold : generator_facts.
 Proof. unfold generator_facts. repeat split; vm_compute; reflexivity. Qed.
@@ -67,7 +68,7 @@ with wfd_block (L D F N:bool) (b:block) {struct b} : bool :=
 with wfd_cases (L D F N:bool) (cs:cases) {struct cs} : bool :=
   match cs with
   | CNil => true
-  | CCons b ft r => wfd_block L D F N b && (negb ft || no_direct_defer b) && wfd_cases L D F N r
+  | CCons b ft r => wfd_block L D F N b && wfd_cases L D F N r
   end.
 
 (* ------------------------------------------------------------------ outcomes *)
@@ -256,7 +257,7 @@ Proof.
     + (* Close *) cbn [wfd_stmt] in Hs. discriminate.
   - (* CNil *) intros L D F N lp d v x _ Hd. sem. apply Hd.
   - (* CCons *) intros b IHb ft r IHr L D F N lp d v x H Hd. sem.
-    apply andb_true_iff in H as [H Hr]. apply andb_true_iff in H as [Hb _].
+    apply andb_true_iff in H as [Hb Hr].
     assert (Hcase : allowed L D F (fst (match rstmts lp b [] None x with
               | (Nrm, x1) => if ft then rcases lp r d None x1 else (Nrm, x1)
               | q => q end))).
@@ -319,7 +320,7 @@ Definition tail_hyp (tl:tailk) (cur:frame) (ds:list closure) (rin:list rframe) (
   match tl with
   | TlPlain => True
   | TlRepeat _ => exists k rin', rin = (k, []) :: rin' /\ is_loop k = true
-  | TlCase true => no_direct_defer b = true /\ ds = [] /\ fdefers cur = []
+  | TlCase true => True
   | TlCase false => True
   end.
 
@@ -894,7 +895,9 @@ Proof.
       destruct Ht as (k & rin' & -> & Hk).
       destruct o; try discriminate; simpl; try reflexivity.
       unfold post. cbn [benign catcher run_upto run_defers]. rewrite Hk. reflexivity.
-    + destruct Ht as (_ & -> & _). reflexivity.
+    + rewrite (close_scope_run _ _ _ _ Hf). rewrite tail_post_ft.
+      pose proof (run_defers_nrm_benign ds x Hds) as Hb.
+      destruct (run_defers ds Nrm x) as [o x1]. simpl in Hb. symmetry. apply post_benign. exact Hb.
     + rewrite tblock_app; unfold bindN. rewrite (close_scope_run _ _ _ _ Hf).
       pose proof (run_defers_nrm_benign ds x Hds) as Hb.
       destruct (run_defers ds Nrm x) as [o x1]. simpl in Hb.
@@ -924,8 +927,7 @@ Proof.
       - rewrite post_benign by exact Eo. destruct o; try discriminate.
         + destruct (is_breakflow s); [exfalso; apply Hbf; reflexivity|].
           assert (Ht' : tail_hyp tl cur ds rin r).
-          { destruct tl as [|c|[|]]; try exact Ht. destruct Ht as (Hn & H1 & H2).
-            split; [|split; assumption]. destruct s; simpl in Hn; try discriminate; exact Hn. }
+          { destruct tl as [|c|[|]]; exact Ht. }
           exact (IHr cur ds inner outer rin lp tl N x1 Hf Hc Hwr Hlp Ht').
         + destruct tl as [|c|[|]]; reflexivity.
         + destruct tl as [|c|[|]]; reflexivity.
@@ -946,11 +948,11 @@ Proof.
       * exact Hc.
       * exact Hwr.
       * exact Hlp.
-      * destruct tl as [|c|[|]]; try exact Ht. destruct Ht as (Hn & _). simpl in Hn. discriminate.
+      * destruct tl as [|c|[|]]; exact Ht.
     + (* Close *) cbn [wfd_stmt] in Hws. discriminate.
   - (* CNil *) intros inner outer rin lp N d td v x Hc Hw Hlp Hd. unf. cbn [cases_exec]. apply Hd.
   - (* CCons *) intros b IHb ft r IHr inner outer rin lp N d td v x Hc Hw Hlp Hd. unf.
-    apply andb_true_iff in Hw as [Hw Hwr]. apply andb_true_iff in Hw as [Hwb Hft].
+    apply andb_true_iff in Hw as [Hwb Hwr].
     cbn [cases_exec].
     assert (Hcase :
       switch_result (bindN (seq_exec texec (cbody (inner ++ outer) (newframe KBlock) b false (TlCase ft)) x)
@@ -959,8 +961,7 @@ Proof.
         (match rstmts lp b [] None x with
          | (Nrm, x1) => if ft then rcases lp r d None x1 else (Nrm, x1)
          | q => q end)))).
-    { assert (Ht : tail_hyp (TlCase ft) (newframe KBlock) [] rin b).
-      { destruct ft; [|exact I]. simpl in Hft. repeat split; auto. }
+    { assert (Ht : tail_hyp (TlCase ft) (newframe KBlock) [] rin b) by (destruct ft; exact I).
       pose proof (IHb (newframe KBlock) [] inner outer rin lp (TlCase ft) N x frame_rel_new Hc Hwb Hlp Ht) as H.
       unfold tblock in H. rewrite H. cbn [fin_of].
       destruct (rstmts lp b [] None x) as [o x1].
@@ -1099,7 +1100,7 @@ with wf_block (L D F N:bool) (b:block) {struct b} : bool :=
 with wf_cases (L D F N:bool) (cs:cases) {struct cs} : bool :=
   match cs with
   | CNil => true
-  | CCons b ft r => wf_block L D F N b && (negb ft || no_direct_defer b) && wf_cases L D F N r
+  | CCons b ft r => wf_block L D F N b && wf_cases L D F N r
   end.
 
 Definition wf_prog (p:prog) : bool := wf_block false false true false (snd p).
@@ -1155,7 +1156,7 @@ Proof.
       apply list_nat_eqb_eq in Ho. rewrite Ho. apply (IHr L D F N Hr).
   - (* CNil *) intros; reflexivity.
   - (* CCons *) intros b IHb ft r IHr L D F N H lp d v x. cbn [desugar_cases rcases wf_cases] in *.
-    apply andb_true_iff in H as [H Hr]. apply andb_true_iff in H as [Hb _].
+    apply andb_true_iff in H as [Hb Hr].
     destruct v as [[|k]|]; try (rewrite (IHb L D F N Hb); destruct (rstmts lp b [] None x) as [o x1]; destruct o; auto;
                                 destruct ft; auto; apply (IHr L D F N Hr)).
     apply (IHr L D F N Hr).
@@ -1189,9 +1190,8 @@ Proof.
     destruct s; cbn [desugar_block wfd_block]; try (rewrite IHs, IHr; reflexivity).
     (* Close *) simpl in H1. destruct N; [discriminate|]. apply wfd_close_defers. exact IHr.
   - (* CCons *) intros b IHb ft r IHr L D F N H. simpl in *.
-    apply andb_true_iff in H as [H H3]. apply andb_true_iff in H as [H1 H2].
-    rewrite IHb, IHr by assumption. simpl. rewrite andb_true_r.
-    destruct ft; simpl in *; auto. apply no_direct_defer_desugar; assumption.
+    apply andb_true_iff in H as [H1 H3].
+    rewrite IHb, IHr by assumption. reflexivity.
 Qed.
 
 (* ================================================================== the property *)
@@ -1238,19 +1238,9 @@ Definition defer_compile_correct_full : Prop :=
 
 Definition st0 (o:list nat) : st := mkst o [].
 
-(* switch c do case 0 then defer end; emit; fallthrough  case 1 then emit end *)
-Definition witness_fallthrough : prog :=
-  (true, BCons (Switch 1 (CCons (BCons (Defer 2 BNil) (BCons (Emit 3) BNil)) true
-                         (CCons (BCons (Emit 4) BNil) false CNil)) BNil) BNil).
-
 (* defer A end  defer if c then return end end  emit *)
 Definition witness_escape : prog :=
   (true, BCons (Defer 1 BNil) (BCons (Defer 2 (BCons (If 3 (BCons ReturnVoid BNil) BNil) BNil)) (BCons (Emit 4) BNil))).
-
-Lemma refuted_fallthrough :
-  accepted witness_fallthrough = true /\
-  tgt_sem (compile witness_fallthrough) (st0 [0]) <> ref_sem witness_fallthrough (st0 [0]).
-Proof. split; [reflexivity|]. vm_compute. discriminate. Qed.
 
 Lemma refuted_escape :
   accepted witness_escape = true /\
@@ -1268,7 +1258,7 @@ Proof. split; [reflexivity|]. vm_compute. discriminate. Qed.
 
 Theorem defer_compile_correct_refuted : ~ defer_compile_correct_full.
 Proof.
-  intro H. destruct refuted_fallthrough as [Ha Hn]. apply Hn. apply H. exact Ha.
+  intro H. destruct refuted_escape as [Ha Hn]. apply Hn. apply H. exact Ha.
 Qed.
 
 (* non-vacuity: a program with loops, switch, defers, close variables satisfies the hypothesis *)
